@@ -337,6 +337,20 @@ class SegEval:
                             if not is_none and assume != "zero":
                                 stack.append((tb, delta - 1, "pos", ret))
                         continue
+                # `match depth.checked_sub(1)`: None = the depth was 0, Some = it was at least 1
+                if v[0] == "discr" and self.kind == "counter" and delta == 0:
+                    src = du.val_place((v[1][0], ()))
+                    if src[0] == "call" and src[1] and src[1].endswith("::checked_sub") and src[2] and self.is_depth(src[2][0]) and const_int(strip_casts(src[2][1])) == 1:
+                        for val, tb in t["targets"] + [[None, t["otherwise"]]]:
+                            if cfg.blocks[tb]["term"]["k"] == "unreachable":
+                                continue
+                            if val == 1 or (val is None and not any(x[0] == 1 for x in t["targets"])):
+                                if assume != "zero":
+                                    stack.append((tb, delta, "pos", ret))
+                            elif val == 0:
+                                if assume != "pos":
+                                    stack.append((tb, delta, "zero", ret))
+                        continue
                 c = self.cond(v, cls, delta) if t.get("discr_ty") == "bool" else None
                 f_t = [tb for val, tb in t["targets"] if val == 0]
                 false_b = f_t[0] if f_t else None
@@ -368,6 +382,27 @@ class SegEval:
                 if not cfg.blocks[s2].get("cleanup"):
                     stack.append((s2, delta, assume, ret))
         return outs
+
+
+def precision_verdicts(fn):
+    """the other direction (C02: a path that stays inside must not be refused): the kept depth is EXACTLY the real depth - a name adds
+    one, '.' and '' add nothing, '..' takes one away - and '..' answers true only where depth == 0 has been established"""
+    sh = find_shape(fn)
+    if sh is None or not sh.depths:
+        return None
+    kind, D = sh.depths[0]
+    ev = SegEval(fn, sh, kind, D)
+    res = []
+    for cls in CLASSES:
+        want = {"..": -1, ".": 0, "": 0, "<name>": 1}[cls]
+        for o in ev.run(cls):
+            if o[0] == "next":
+                ok = o[1] == want
+                res.append((cls, ok, "next segment with depth%+d%s" % (o[1], "" if ok else " (the real depth changes by %+d: paths that stay inside would be refused later, or the check is unsound)" % want), o[3]))
+            elif o[0] == "return" and cls == ".." and o[1] is True:
+                ok = o[2] == "zero"
+                res.append((cls, ok, "answers 'outside' for '..'%s" % (" at depth 0" if ok else " on a path that has not established depth == 0: 'a/../b' stays inside and is refused"), o[3]))
+    return res
 
 
 def verdicts(fn):
